@@ -122,7 +122,9 @@ where
         }
     }
     // hash_elements: base elements, then the same residues grouped into quadratic / cubic extension elements
-    for n in 0..=20usize {
+    // (short lists exhaustively, then lengths around every buffer size a hasher might batch by: 64 / 128 / 256 / 1024 bytes and elements)
+    let long = [30usize, 42, 43, 48, 63, 64, 65, 66, 84, 126, 127, 128, 129, 130, 132, 192, 255, 256, 257, 258, 384, 1023, 1024, 1025, 1026, 2049];
+    for n in (0..=24usize).chain(long.iter().copied()) {
         let base: Vec<B> = odd_elements::<B>(n, rng);
         let want = pad32(reference(&base.iter().flat_map(|&e| canon(e)).collect::<Vec<u8>>()));
         *cases += 1;
